@@ -46,6 +46,9 @@ def _cases(draw):
     targets = ['1.1', '1.2', '1.3'] if has_ext else list(gen.VERSIONS)
     if _has_preserved(res):
         targets = targets + ['1.3', '1.3', '1.3']     # the one version that can express it
+    if not has_ext and any(e.get('frames') for lx in res['lexicons']
+                           for e in lx.get('entries', [])):
+        targets = targets + ['1.0', '1.0', '1.0']     # entry-level frames exist in 1.0 only
     return {'resource': res, 'style': style, 'target': draw(st.sampled_from(targets))}
 
 
@@ -121,7 +124,7 @@ def _fp(case):
 
 SUBS = [
     Sub('roundtrip', oracle, _classify, strategy=lambda tier: _cases(),
-        budget={'quick': 60, 'thorough': 2000}, fingerprint=_fp,
+        budget={'quick': 120, 'thorough': 2000}, fingerprint=_fp,
         require_tags=('extension', 'cross-version', 'meta:example', 'text-over-8k',
                       'extension-before-plain-lexicon', 'xml:space-preserve')),
 ]
